@@ -92,6 +92,15 @@ def _spd(g, *shape):
     return a @ a.transpose(-1, -2) / shape[-1] + 0.3 * torch.eye(shape[-1])
 
 
+def _mode(lik, case, ctx):
+    """the statement does not depend on the module's mode: half of the cases run the likelihood in evaluation mode"""
+    if case["seed"] % 2:
+        lik.eval()
+        ctx.hit("info:likelihood_in_eval_mode")
+    else:
+        ctx.hit("info:likelihood_in_training_mode")
+
+
 def _make_lik(kind, g, lb, n):
     import torch
 
@@ -167,6 +176,7 @@ def _single(case, ctx, g):
 
     kind, n, lb, db = case["kind"], case["n"], case["lbatch"], case["dbatch"]
     lik, fixed = _make_lik(kind, g, lb, n)
+    _mode(lik, case, ctx)
     mean, C = util.randn(g, *db, n), _spd(g, *db, n)
     d = MVN(mean, C)
     full = torch.broadcast_shapes(torch.Size(lb), torch.Size(db))
@@ -209,6 +219,7 @@ def _size_mismatch(case, ctx, g):
     from vf import util
 
     lik, fixed = _make_lik(case["lkind"], g, [], case["n"])
+    _mode(lik, case, ctx)
     m_ = case["m"]
     mean, C = util.randn(g, m_), _spd(g, m_)
     with warnings.catch_warnings():
@@ -233,6 +244,7 @@ def _mt(case, ctx, g):
     t, n, rank, db = case["t"], case["n"], case["rank"], case["dbatch"]
     lb = case.get("lbatch", [])
     lik = gpytorch.likelihoods.MultitaskGaussianLikelihood(num_tasks=t, rank=rank, has_global_noise=case["global"], has_task_noise=case["task"], **({"batch_shape": torch.Size(lb)} if lb else {}))
+    _mode(lik, case, ctx)
     util.randomize(lik, g)
     mean, C = util.randn(g, *db, n, t), _spd(g, *db, n * t)
     d = MT(mean, C, interleaved=case["interleaved"])
@@ -281,6 +293,7 @@ def _list(case, ctx, g):
         ds.append(MVN(util.randn(g, n), _spd(g, n)))
         calls.append(util.rand(g, n) + 0.02)
     ll = gpytorch.likelihoods.LikelihoodList(*liks)
+    _mode(ll, case, ctx)
     none_at = case.get("none_at", [])
     # a None entry: that member gets no call-time noise and uses its stored noise
     passed = [None if i in none_at else c for i, c in enumerate(calls)]
